@@ -163,8 +163,15 @@ func (c *ctx) orItem(it gen.RuleItem, d *gen.JV) Verdict {
 		}
 	}
 	if strings.HasPrefix(tname, "@") {
-		if len(rest) != 0 {
-			return Unspecified
+		// next to a type reference only nullable is decided by the statement
+		// ("plus null when nullable:true"); other rules there are not
+		for _, r := range rest {
+			if r.Name != "nullable" {
+				return Unspecified
+			}
+			if r.Val == "true" && isNull(d) {
+				return Accept
+			}
 		}
 		return c.typeRef(tname, d)
 	}
